@@ -92,7 +92,7 @@ def run_exctab(ctx, lib=None, drv=None, tables=None):
     if drv is None:
         drv = common.cc_driver("indexdrive", ["index/indexdrive.c"], lib)
     if not os.path.exists(RUN):
-        ok, log = common.ocaml_build()
+        ok, log = common.ocaml_build("index")
         if not ok or not os.path.exists(RUN):
             ctx.correspondence_broken("exctab_search", {"error": "extracted model did not build", "log": log[-1500:]})
             return {"evaluations": 0, "nontrivial": 0}
